@@ -357,7 +357,7 @@ class FuncTaint:
 
 def analyse_function(model, ref, arg_params=("arg",), val_params=()):
     mod = model.mod(PYRTL)
-    fn = model.func(f"{PYRTL}::{ref}")
+    fn = model.func_view(f"{PYRTL}::{ref}", depth=3)
     facts, errors = [], []
     FuncTaint(mod, fn, ref, facts, errors, arg_params, val_params).run()
     return facts, errors
